@@ -2,6 +2,7 @@ package pac
 
 import (
 	"bytes"
+	"unicode/utf16"
 
 	"github.com/jcmturner/rpc/v2/mstypes"
 )
@@ -48,26 +49,22 @@ func (k *UPNDNSInfo) Unmarshal(b []byte) (err error) {
 	ub := mstypes.NewReader(bytes.NewReader(b[k.UPNOffset : k.UPNOffset+k.UPNLength]))
 	db := mstypes.NewReader(bytes.NewReader(b[k.DNSDomainNameOffset : k.DNSDomainNameOffset+k.DNSDomainNameLength]))
 
-	u := make([]rune, k.UPNLength/2, k.UPNLength/2)
+	u := make([]uint16, k.UPNLength/2, k.UPNLength/2)
 	for i := 0; i < len(u); i++ {
-		var r uint16
-		r, err = ub.Uint16()
+		u[i], err = ub.Uint16()
 		if err != nil {
 			return
 		}
-		u[i] = rune(r)
 	}
-	k.UPN = string(u)
-	d := make([]rune, k.DNSDomainNameLength/2, k.DNSDomainNameLength/2)
+	k.UPN = string(utf16.Decode(u))
+	d := make([]uint16, k.DNSDomainNameLength/2, k.DNSDomainNameLength/2)
 	for i := 0; i < len(d); i++ {
-		var r uint16
-		r, err = db.Uint16()
+		d[i], err = db.Uint16()
 		if err != nil {
 			return
 		}
-		d[i] = rune(r)
 	}
-	k.DNSDomain = string(d)
+	k.DNSDomain = string(utf16.Decode(d))
 
 	return
 }
